@@ -176,6 +176,8 @@ def run_scenario(chk, sc, cfgseed, species_src, flavour="sched", workers=None):
 
 
 def run(chk, replay):
+    if replay and replay["scenario"].get("real_pool"):
+        return real_pool_block(chk)
     chk.rule = ("behaviours of Chk2plt.tla emitted by TLC (three independent layouts per level x 8 flag sets x completion order), "
                 "each replayed on a synthetic anisotropic checkpoint with 1..3 ghost cells and species from a list or a reference "
                 "plotfile; signature = (levels, flags, per-level layout relation, finish class, species source, ghost width); "
@@ -224,6 +226,10 @@ def run(chk, replay):
     # the working directory changes between conversions of checkpoints typed under a relative name (PoolEnv.tla)
     from harness import poolenv
     poolenv.tool_phase(chk, "chk2plt")
+    real_pool_block(chk)
+
+
+def real_pool_block(chk):
     # chk2plt with GENUINE process pools in a child process: as they come, with a slow task-handler thread, and with workers started
     # by 'spawn' (StartMethod.tla) -- with the default options and with every option away from its default; the plotfile written
     # must be the one of the in-process reference run, which the replays above judge against the checkpoint
